@@ -154,8 +154,9 @@ Fixpoint logp_down (a puiss : Z) (pows : list Z) (res : Z) : Z :=
   | q :: rest => let sq := opMul_I puiss q in
                  if opLe_I sq a then logp_down a sq rest (res + 2 ^ Z.of_nat (List.length rest)) else logp_down a puiss rest res
   end.
-(*@ logp | src/kernel/gmp++/gmp++_int_misc.C | int64_t logp(const Integer& a, const Integer& p) | 4a0f449c8dd8 *)
+(*@ logp | src/kernel/gmp++/gmp++_int_misc.C | int64_t logp(const Integer& a, const Integer& p) | 967cc5314ebd *)
 Definition logp (a p : Z) : Z :=
+  if opLt_I a p then 0 else
   match logp_up (Z.to_nat (Z.log2 a)) a (ctor_copy p) nil with
   | nil => 0
   | puiss :: pows => logp_down a puiss pows (2 ^ Z.of_nat (List.length pows))
